@@ -111,7 +111,7 @@ func genPTs(r *rand.Rand, g genCfg, allowErr bool) []string {
 	}
 	ps := []string{}
 	for i := 0; i < n; i++ {
-		k := pick(r, []string{"ok", "ok", "ok", "err", "zerr"})
+		k := pick(r, []string{"ok", "ok", "ok", "err", "zerr", "werr"})
 		if !allowErr || g.okPT {
 			k = "ok"
 		}
@@ -170,6 +170,10 @@ func genPrim(r *rand.Rand, g genCfg) *Node {
 		}
 	}
 	n := prim(ty, r.Intn(2) == 0, def, catch, genTests(r, ty, g, ""), nil)
+	if n.Req && !g.noPath && r.Intn(100) < 8 {
+		ovrCounter++
+		n.ReqPath = fmt.Sprintf("rq%d", ovrCounter)
+	}
 	// a failing PostTransform on a catching node is left open by the properties: not generated
 	n.Pts = genPTs(r, g, catch == None)
 	return n
@@ -210,9 +214,19 @@ func genNode(r *rand.Rand, g genCfg, depth int, parent string) *Node {
 				ts = append(ts, Test{Kind: kd, N: r.Intn(4), Code: kd})
 			}
 		}
-		return slice(e, r.Intn(2) == 0, def, ts, genPTs(r, g, true))
+		sn := slice(e, r.Intn(2) == 0, def, ts, genPTs(r, g, true))
+		if sn.Req && !g.noPath && r.Intn(100) < 8 {
+			ovrCounter++
+			sn.ReqPath = fmt.Sprintf("rq%d", ovrCounter)
+		}
+		return sn
 	case "ptr":
-		return ptr(genNode(r, g, depth+1, "ptr"), r.Intn(2) == 0)
+		pn := ptr(genNode(r, g, depth+1, "ptr"), r.Intn(2) == 0)
+		if pn.Req && !g.noPath && r.Intn(100) < 8 {
+			ovrCounter++
+			pn.ReqPath = fmt.Sprintf("rq%d", ovrCounter)
+		}
+		return pn
 	case "struct":
 		return genStruct(r, g, depth)
 	}
